@@ -12,6 +12,7 @@ CONSTANTS
   T = 2
   MaxTime = 0
   EarlyCancel = TRUE
+  MultiChunk = FALSE
   NoTimeouts = FALSE
   Mode = "mc"
   SymBreak = FALSE
@@ -21,6 +22,7 @@ CONSTANTS
   Dev_KeyMask = FALSE
   Dev_NoTypeCheck = FALSE
   Dev_NoPopOnTimeout = FALSE
+  Dev_DropChunksOnTimeout = FALSE
 INIT Init
 NEXT Next
 VIEW view
